@@ -44,9 +44,7 @@ h_sha256_update(void)
 
 	SHA256_Update_internal(ctx, in, len, tmp32);
 
-	VCOVER(len == 0 || (r == 10 && len == 53));			/* nothing / no compression, buffer 63 */
-	VCOVER(r == 10 && len == 54 && g256_kk == k0 && g256_j == 63);	/* exactly fills the block */
+	VCOVER(len == 0 || (r == 10 && len == 53) || (r == 10 && len == 54 && g256_kk == k0 && g256_j == 63));	/* nothing / no compression / exactly one block */
 	VCOVER(r == 63 && len == 130 && g256_kk == k0 + 2 && g256_j == 5);	/* first block + 2 loop iterations + tail */
-	VCOVER(r + len >= 64 && g256_kk == k0 && g256_j < r);	/* observed byte comes from the old buffer */
-	VCOVER(r + len >= 128 && g256_j < (r + len) % 64);	/* observed tail byte after the loop */
+	VCOVER(r + len >= 128 && ((g256_kk == k0 && g256_j < r) || g256_j < (r + len) % 64));	/* old-buffer byte / tail byte observed */
 }
